@@ -158,6 +158,9 @@ func c14Run(c *core.Ctx, k c14Case) {
 func init() {
 	core.Register("C14", &core.Scenario{
 		Run: func(c *core.Ctx) {
+			if !stageOn("main") {
+				return
+			}
 			c.Res.Rule = "tie: regenerated Lean defs vs real functions on every MTU 1280..1500 x transport x mode, a lattice of (fragment, existing padding), and low-entropy lengths 0..40 + boundaries; oracle: datagram-length formula of writeOneSegment over every MTU x mode x payload size {0,1,mid,max} x configured maxima {unset,0,1,100,255} x first padding {0,max}. Distinct = distinct tuple; non-trivial = the configuration yields a fragment size."
 			c.Correspondence("Gen.Arith.{maxFragmentSize,maxPaddingSize,lowEntropyEncodedPayloadLen} vs pkg/protocol (hooks)")
 			if c.Gen == nil {
